@@ -5,6 +5,8 @@ import (
 	"errors"
 	"net/http"
 	"net/http/httptest"
+	"net/url"
+	"strings"
 	"time"
 )
 
@@ -164,4 +166,98 @@ func (g *guardedWriter) Flush() {
 func (s *Sim) Listening(addr string) bool {
 	e := s.ports()[addr]
 	return e != nil && !e.down
+}
+
+// Simulated upstreams: the stand-in for the servers a program calls out to. (*http.Client).Do in
+// woven code is redirected to SimClientDo, which looks the request's host up here. An upstream is
+// a pure function of the request; it says how long the answer takes, in simulated time.
+
+// Upstream answers one outbound request: status, headers, body, and the time the answer takes.
+type Upstream func(req *http.Request) (status int, hdr http.Header, body string, takes time.Duration)
+
+// SetUpstream registers the server behind host (as in the request URL).
+func (s *Sim) SetUpstream(host string, u Upstream) {
+	if s.upstreams == nil {
+		s.upstreams = map[string]Upstream{}
+	}
+	s.upstreams[host] = u
+}
+
+type simTimeout struct{ msg string }
+
+func (e simTimeout) Error() string   { return e.msg }
+func (e simTimeout) Timeout() bool   { return true }
+func (e simTimeout) Temporary() bool { return true }
+
+// SimClientDo replaces (*http.Client).Do: the client's Timeout and CheckRedirect are honoured as
+// net/http honours them (the timeout covers the whole exchange including redirects; at most 10
+// redirects are followed unless CheckRedirect says otherwise).
+func SimClientDo(c *http.Client, req *http.Request) (*http.Response, error) {
+	s := active
+	if s == nil {
+		return c.Do(req)
+	}
+	s.yield("simhttp.ClientDo")
+	timeout := c.Timeout // read once, when the exchange starts, as net/http does
+	check := c.CheckRedirect
+	spent := time.Duration(0)
+	var via []*http.Request
+	for {
+		u := s.upstreams[req.URL.Host]
+		if u == nil {
+			return nil, &url.Error{Op: titleMethod(req.Method), URL: req.URL.String(), Err: errors.New("dial tcp: lookup " + req.URL.Host + ": no such host")}
+		}
+		status, hdr, body, takes := u(req)
+		if takes >= time.Second {
+			s.Fault("slow-upstream")
+		}
+		if timeout > 0 && spent+takes >= timeout {
+			s.Sleep(timeout - spent)
+			s.Probe("outbound-call-timed-out")
+			return nil, &url.Error{Op: titleMethod(req.Method), URL: req.URL.String(), Err: simTimeout{"context deadline exceeded (Client.Timeout exceeded while awaiting headers)"}}
+		}
+		if takes > 0 {
+			s.Sleep(takes)
+		} else {
+			s.yield("simhttp.ClientDo.answer")
+		}
+		spent += takes
+		rec := httptest.NewRecorder()
+		for k, vs := range hdr {
+			for _, v := range vs {
+				rec.Header().Add(k, v)
+			}
+		}
+		rec.WriteHeader(status)
+		rec.Body.WriteString(body)
+		resp := rec.Result()
+		resp.Request = req
+		loc := resp.Header.Get("Location")
+		if status < 300 || status > 399 || loc == "" {
+			return resp, nil
+		}
+		next, err := req.URL.Parse(loc)
+		if err != nil {
+			return resp, nil
+		}
+		nreq, _ := http.NewRequest("GET", next.String(), nil)
+		via = append(via, req)
+		if check != nil {
+			if err := check(nreq, via); err == http.ErrUseLastResponse {
+				return resp, nil
+			} else if err != nil {
+				return resp, &url.Error{Op: titleMethod(req.Method), URL: req.URL.String(), Err: err}
+			}
+		} else if len(via) >= 10 {
+			return resp, &url.Error{Op: titleMethod(req.Method), URL: req.URL.String(), Err: errors.New("stopped after 10 redirects")}
+		}
+		req = nreq
+	}
+}
+
+func titleMethod(m string) string {
+	if m == "" {
+		return "Get"
+	}
+	return m[:1] + strings.ToLower(m[1:])
 }
